@@ -52,6 +52,14 @@ import (
 
 func TestMain(m *testing.M) { stats.Main(m) }
 
+// noRef switches every comparison with the reference layout off. It is used only for the
+// sensitivity runs (C12_NOREF=1 with_mutant.sh ...), to show what the field-set / distinctness /
+// era / purpose / block oracles detect on their own; the registered runs never set it.
+var noRef = stats.EnvInt("C12_NOREF", 0) == 1
+
+// keyShape is a path shape usable inside a failure key (no brackets).
+func keyShape(s string) string { return strings.ReplaceAll(s, "[]", ".N") }
+
 // ------------------------------------------------------------------ plumbing
 
 func splitmix(x *uint64) uint64 {
@@ -723,6 +731,9 @@ func checkTxn(ver int, v reflect.Value, seed uint64, maxPaths int, origin string
 
 	// library == reference layout
 	ref := refSnapshot(ver, v, lims)
+	if noRef {
+		ref = base
+	}
 	if base.id != ref.id {
 		return stats.Failf("C12/"+vs+"/id-layout", "%s transaction ID %v differs from the reference recomputation %v\n %s", vs, base.id, ref.id, short(v))
 	}
@@ -776,7 +787,7 @@ func checkTxn(ver int, v reflect.Value, seed uint64, maxPaths int, origin string
 			continue
 		}
 		mut := snapshot(ver, m, lims)
-		if err := judge(ver, cl, p.Shape(), base, mut, v, m); err != nil {
+		if err := judge(ver, cl, keyShape(p.Shape()), base, mut, v, m); err != nil {
 			return err
 		}
 		rec.Case(stats.FP(vs, p.String(), base.id[:]), rich, origin+":"+vs+":"+cl.String(), "path:"+vs+":"+labelShape(p))
@@ -909,7 +920,7 @@ func checkV1Eras(n *consensus.Network, heights []uint64, bound bool, kind string
 	for _, h := range heights {
 		s := stateAt(n, h)
 		got, want := lib(s), ref(refPrefix(n, h))
-		if got != want {
+		if got != want && !noRef {
 			return 0, stats.Failf("C12/sighash/"+kind+"-layout", "State(height %d, forks %d/%d/%d).%sSigHash = %v, reference recomputation (replay prefix %v) gives %v",
 				h, n.HardforkASIC.Height, n.HardforkFoundation.Height, n.HardforkV2.AllowHeight, kind, got, refPrefix(n, h), want)
 		}
@@ -972,6 +983,37 @@ func checkV1SigHashes(n *consensus.Network, heights []uint64, txn types.Transact
 		func(p []byte) types.Hash256 { return refPartialSigHash(p, txn, cf) }); err != nil {
 		return
 	}
+	// a signature that is not listed as covered is witness data for both hashes
+	uncovered := func(list []uint64) int {
+		for j := range txn.Signatures {
+			in := false
+			for _, c := range list {
+				in = in || c == uint64(j)
+			}
+			if !in {
+				return j
+			}
+		}
+		return -1
+	}
+	perturb := func(j int) types.Transaction {
+		t2 := txn
+		t2.Signatures = append([]types.TransactionSignature(nil), txn.Signatures...)
+		t2.Signatures[j].Signature = append(append([]byte(nil), t2.Signatures[j].Signature...), 0x5a)
+		t2.Signatures[j].Timelock++
+		return t2
+	}
+	s := stateAt(n, heights[len(heights)-1])
+	if j := uncovered(covered); j >= 0 {
+		if s.WholeSigHash(txn, parentID, pkIndex, timelock, covered) != s.WholeSigHash(perturb(j), parentID, pkIndex, timelock, covered) {
+			return false, 0, stats.Failf("C12/sighash/Whole-covers-uncovered-signature", "WholeSigHash changes with signature %d, which is not among the covered signatures %v", j, covered)
+		}
+	}
+	if j := uncovered(cf.Signatures); j >= 0 {
+		if s.PartialSigHash(txn, cf) != s.PartialSigHash(perturb(j), cf) {
+			return false, 0, stats.Failf("C12/sighash/Partial-covers-uncovered-signature", "PartialSigHash changes with signature %d, which is not among the covered signatures %v", j, cf.Signatures)
+		}
+	}
 	return hasInputs || cfInputs, eras, nil
 }
 
@@ -988,17 +1030,36 @@ func checkV2SigHashes(s consensus.State, txn types.V2Transaction) (n int, err er
 	bad := func(name string, got, want types.Hash256) error {
 		return stats.Failf("C12/sighash/"+name+"-layout", "State.%sSigHash = %v, reference recomputation (\"sia/sig/...|\" ‖ 0x02 ‖ payload with zeroed signatures) gives %v", name, got, want)
 	}
-	if got, want := s.InputSigHash(txn), refInputSigHash(txn); got != want {
+	if got, want := s.InputSigHash(txn), refInputSigHash(txn); got != want && !noRef {
 		return 0, bad("Input", got, want)
 	} else {
 		all = append(all, purposeHash{"input", inputPayload(txn), got})
+		// the witnesses (satisfied policies, contract signatures) are not part of what is signed
+		t2 := txn
+		t2.SiacoinInputs = append([]types.V2SiacoinInput(nil), txn.SiacoinInputs...)
+		for i := range t2.SiacoinInputs {
+			t2.SiacoinInputs[i].SatisfiedPolicy.Signatures = append(append([]types.Signature(nil), t2.SiacoinInputs[i].SatisfiedPolicy.Signatures...), types.Signature{1})
+		}
+		t2.FileContracts = append([]types.V2FileContract(nil), txn.FileContracts...)
+		for i := range t2.FileContracts {
+			t2.FileContracts[i].HostSignature[5] ^= 0x10
+		}
+		if len(t2.SiacoinInputs)+len(t2.FileContracts) > 0 && s.InputSigHash(t2) != got {
+			return 0, stats.Failf("C12/sighash/Input-covers-signature", "InputSigHash changes when only input / contract signatures change")
+		}
 	}
+	sigs := func(x *types.Signature) { x[0] ^= 1; x[63] ^= 0x80 }
 	contract := func(fc types.V2FileContract) error {
 		got, want := s.ContractSigHash(fc), refContractSigHash(fc)
-		if got != want {
+		if got != want && !noRef {
 			return bad("Contract", got, want)
 		}
 		all = append(all, purposeHash{"filecontract", contractPayload(fc), got})
+		sigs(&fc.RenterSignature)
+		sigs(&fc.HostSignature)
+		if s.ContractSigHash(fc) != got {
+			return stats.Failf("C12/sighash/Contract-covers-signature", "ContractSigHash changes when only the contract's signatures change")
+		}
 		return nil
 	}
 	for _, fc := range txn.FileContracts {
@@ -1014,10 +1075,18 @@ func checkV2SigHashes(s consensus.State, txn types.V2Transaction) (n int, err er
 	for _, r := range txn.FileContractResolutions {
 		if rn, ok := r.Resolution.(*types.V2FileContractRenewal); ok && rn != nil {
 			got, want := s.RenewalSigHash(*rn), refRenewalSigHash(*rn)
-			if got != want {
+			if got != want && !noRef {
 				return 0, bad("Renewal", got, want)
 			}
 			all = append(all, purposeHash{"filecontractrenewal", renewalPayload(*rn), got})
+			r2 := *rn
+			sigs(&r2.RenterSignature)
+			sigs(&r2.HostSignature)
+			sigs(&r2.NewContract.RenterSignature)
+			sigs(&r2.NewContract.HostSignature)
+			if s.RenewalSigHash(r2) != got {
+				return 0, stats.Failf("C12/sighash/Renewal-covers-signature", "RenewalSigHash changes when only the renewal's / new contract's signatures change")
+			}
 			if err := contract(rn.NewContract); err != nil {
 				return 0, err
 			}
@@ -1025,10 +1094,14 @@ func checkV2SigHashes(s consensus.State, txn types.V2Transaction) (n int, err er
 	}
 	for _, a := range txn.Attestations {
 		got, want := s.AttestationSigHash(a), refAttestationSigHash(a)
-		if got != want {
+		if got != want && !noRef {
 			return 0, bad("Attestation", got, want)
 		}
 		all = append(all, purposeHash{"attestation", attestationPayload(a), got})
+		sigs(&a.Signature)
+		if s.AttestationSigHash(a) != got {
+			return 0, stats.Failf("C12/sighash/Attestation-covers-signature", "AttestationSigHash changes when only the attestation's signature changes")
+		}
 	}
 	if err := distinctPurposes(all); err != nil {
 		return 0, err
@@ -1276,7 +1349,7 @@ func checkBlockGen(c BlockCase) error {
 	}
 	b := v.Addr().Interface().(*types.Block)
 	id := b.ID()
-	if want := gen.RefBlockID(*b); id != want {
+	if want := gen.RefBlockID(*b); id != want && !noRef {
 		return stats.Failf("C12/block/id-layout", "Block.ID = %v, reference recomputation gives %v\n %s", id, want, short(v))
 	}
 	fam := newFamily()
@@ -1326,7 +1399,7 @@ func checkBlockGen(c BlockCase) error {
 			return stats.Failf("", "harness: mutation at %s is a no-op", p)
 		}
 		if mid := m.Addr().Interface().(*types.Block).ID(); mid == id {
-			return stats.Failf("C12/block/"+ver+"-id-unbound/"+labelShape(p), "%s block: changing %s (header fields kept) leaves the block ID %v unchanged\n before %s\n after  %s", ver, p, id, short(v), short(m))
+			return stats.Failf("C12/block/"+ver+"-id-unbound/"+keyShape(labelShape(p)), "%s block: changing %s (header fields kept) leaves the block ID %v unchanged\n before %s\n after  %s", ver, p, id, short(v), short(m))
 		}
 		checked++
 		rec.Case(stats.FP("blockgen", id[:], p.String()), leaves >= 2, "blockgen:"+ver+":id-changes", "blockpath:"+labelShape(p))
@@ -1381,7 +1454,7 @@ func checkCommit(c CommitCase) error {
 		return s.Interface().(consensus.State).Commitment(a, t.Interface().([]types.Transaction), t2.Interface().([]types.V2Transaction))
 	}
 	base := commit(sv, tv, t2v, miner)
-	if want := refCommitment(sv.Interface().(consensus.State), miner, tv.Interface().([]types.Transaction), t2v.Interface().([]types.V2Transaction)); base != want {
+	if want := refCommitment(sv.Interface().(consensus.State), miner, tv.Interface().([]types.Transaction), t2v.Interface().([]types.V2Transaction)); base != want && !noRef {
 		return stats.Failf("C12/commitment/layout", "State.Commitment = %v, reference recomputation gives %v\n state %s", base, want, short(sv))
 	}
 	seed := c.Seed
@@ -1398,7 +1471,7 @@ func checkCommit(c CommitCase) error {
 			return stats.Failf("", "harness: mutate state at %s: %v", p, err)
 		}
 		if commit(m, tv, t2v, miner) == base {
-			return stats.Failf("C12/commitment/state-unbound/"+p.Shape(), "the v2 commitment does not change when the parent state's %s changes (commitment %v)\n before %s\n after  %s", p, base, short(sv), short(m))
+			return stats.Failf("C12/commitment/state-unbound/"+keyShape(p.Shape()), "the v2 commitment does not change when the parent state's %s changes (commitment %v)\n before %s\n after  %s", p, base, short(sv), short(m))
 		}
 		rec.Case(fp(p.String()), true, "commitment:state-field", "statepath:"+p.Shape())
 	}
@@ -1430,7 +1503,7 @@ func checkCommit(c CommitCase) error {
 				got = commit(sv, tv, m, miner)
 			}
 			if got == base {
-				return stats.Failf("C12/commitment/txn-unbound/"+labelShape(p), "the v2 commitment does not change when %s of the v%d transaction list changes\n before %s\n after  %s", p, which+1, short(lv), short(m))
+				return stats.Failf("C12/commitment/txn-unbound/"+keyShape(labelShape(p)), "the v2 commitment does not change when %s of the v%d transaction list changes\n before %s\n after  %s", p, which+1, short(lv), short(m))
 			}
 			rec.Case(fp(fmt.Sprintf("t%d:%s", which, p)), lv.Len() > 0, fmt.Sprintf("commitment:v%d-txn-field", which+1))
 		}
@@ -1477,7 +1550,7 @@ var fourEras = netOf([3]uint64{10, 20, 30})
 func checkChainBlock(parent consensus.State, b types.Block, supp consensus.V1BlockSupplement, seed *uint64) error {
 	rec := stats.G()
 	id := b.ID()
-	if want := gen.RefBlockID(b); id != want {
+	if want := gen.RefBlockID(b); id != want && !noRef {
 		return stats.Failf("C12/block/id-layout", "Block.ID = %v, reference recomputation gives %v", id, want)
 	}
 	ver := "v1"
@@ -1486,7 +1559,7 @@ func checkChainBlock(parent consensus.State, b types.Block, supp consensus.V1Blo
 		if len(b.MinerPayouts) != 1 {
 			return stats.Failf("", "harness: accepted v2 block with %d payouts", len(b.MinerPayouts))
 		}
-		if want := refCommitment(parent, b.MinerPayouts[0].Address, b.Transactions, b.V2.Transactions); b.V2.Commitment != want {
+		if want := refCommitment(parent, b.MinerPayouts[0].Address, b.Transactions, b.V2.Transactions); b.V2.Commitment != want && !noRef {
 			return stats.Failf("C12/commitment/layout", "the commitment %v of an accepted v2 block at height %d differs from the reference recomputation %v (parent state, miner address, transactions)", b.V2.Commitment, b.V2.Height, want)
 		}
 		rec.Extra("sim-commitments-recomputed", 1)
@@ -1514,7 +1587,7 @@ func checkChainBlock(parent consensus.State, b types.Block, supp consensus.V1Blo
 				got = parent.PartialSigHash(txn, sg.CoveredFields)
 				want = refPartialSigHash(prefix, txn, sg.CoveredFields)
 			}
-			if got != want {
+			if got != want && !noRef {
 				return stats.Failf("C12/sighash/"+kind+"-layout", "height %d txn %d signature %d: %sSigHash = %v, reference recomputation (replay prefix %v) gives %v", h+1, ti, si, kind, got, prefix, want)
 			}
 			rec.Label("sim:sighash:" + kind + ":" + eraNames[era(parent.Network, h)])
@@ -1580,7 +1653,7 @@ func checkChainBlock(parent consensus.State, b types.Block, supp consensus.V1Blo
 			if pv, _ := stats.NoPanic(func() { verr = consensus.ValidateBlock(parent, mb, ms) }); pv != nil {
 				verdict = "same-id:validate-panicked(not accepted)"
 			} else if verr == nil {
-				return stats.Failf("C12/block/"+ver+"-content-unbound/"+labelShape(p), "%s block at height %d: after changing %s (header fields kept) the block keeps its ID %v and ValidateBlock ACCEPTS it\n before %s\n after  %s",
+				return stats.Failf("C12/block/"+ver+"-content-unbound/"+keyShape(labelShape(p)), "%s block at height %d: after changing %s (header fields kept) the block keeps its ID %v and ValidateBlock ACCEPTS it\n before %s\n after  %s",
 					ver, h+1, p, id, short(bv), short(m))
 			} else {
 				verdict = "same-id:rejected:" + rejectClass(verr)
